@@ -30,7 +30,7 @@ if [ $needs_base = 1 ]; then
   cp $T-base/release/mc "$root/mc-base"
 fi
 for id in "$@"; do
-  VERIF_REPO="$root/repo" VERIF_DIR="$root/out" VERIF_BASE_MC="$root/mc-base" VERIF_GEN_TARGET=$T-gen VERIF_C16_TARGET=$T-c16 VERIF_C20_TARGET=$T-c20 VERIF_MC_SRC="$root/mc" \
+  VERIF_REPO="$root/repo" VERIF_DIR="$root/out" VERIF_BASE_MC="$root/mc-base" VERIF_GEN_TARGET=$T-gen VERIF_C16_TARGET=$T-c16 VERIF_CONC_TARGET=$T-conc VERIF_C20_TARGET=$T-c20 VERIF_MC_SRC="$root/mc" \
     "$root/mc-full" run "$id" "${TIER:-quick}" >"$root/$id.out" 2>"$root/$id.err"
   code=$?
   line=$(grep -m1 -E "^VIOLATION|^KNOWN-FINDING|^HELD|^FAILED" "$root/$id.out"); [ -z "$line" ] && line=$(tail -1 "$root/$id.err")
